@@ -619,3 +619,61 @@ pub fn column_read(
         })
     })
 }
+
+/// Like `sql_session`, on an on-disk database WITHOUT the background compactor / vacuum tasks:
+/// one compaction pass over all tables is run before every statement whose index is in
+/// `compact_before`, and the database is closed (dropped) and reopened before every statement
+/// whose index is in `reopen_before`. `target_rowset_size` decides which RowSets a pass merges.
+pub fn sql_session_manual(
+    target_block_size: usize,
+    target_rowset_size: usize,
+    sqls: &[String],
+    reopen_before: &[usize],
+    compact_before: &[usize],
+) -> Result<Vec<Result<Vec<Vec<String>>, String>>, String> {
+    use crate::Database;
+    use crate::array::datachunk_to_sqllogictest_string;
+    use crate::storage::SecondaryStorageOptions;
+    guarded(|| {
+        tokio::runtime::Builder::new_multi_thread()
+            .worker_threads(2)
+            .enable_all()
+            .build()
+            .unwrap()
+            .block_on(async {
+                let dir = ScratchDir::new()?;
+                let open = || async {
+                    let mut options = SecondaryStorageOptions::default_for_cli();
+                    options.path = dir.path().join("db");
+                    options.target_block_size = target_block_size;
+                    options.target_rowset_size = target_rowset_size;
+                    Database::verif_new_on_disk_manual(options).await
+                };
+                let mut db = open().await;
+                let mut out = vec![];
+                for (i, sql) in sqls.iter().enumerate() {
+                    if compact_before.contains(&i) {
+                        db.verif_compact_once().await.map_err(|e| {
+                            format!(
+                                "compaction failed: {}",
+                                e.to_string().lines().next().unwrap_or("")
+                            )
+                        })?;
+                    }
+                    if reopen_before.contains(&i) {
+                        drop(db);
+                        db = open().await;
+                    }
+                    out.push(match db.run(sql).await {
+                        Ok(chunks) => Ok(chunks
+                            .iter()
+                            .flat_map(datachunk_to_sqllogictest_string)
+                            .collect()),
+                        Err(e) => Err(e.to_string().lines().next().unwrap_or("").to_string()),
+                    });
+                }
+                drop(db);
+                Ok(out)
+            })
+    })
+}
